@@ -187,6 +187,36 @@ example : C16_fitsGoInt {} [.setS 7, .saveIncr 7 [65], .reopen, .save 9 [66, 67]
 example : ((SqlW.open {} 0).run [.setS 7, .saveIncr 7 [65], .reopen, .get 1 9]).2
         = (({} : AStore).run [.setS 7, .saveIncr 7 [65], .reopen, .get 1 9]).2 := by decide
 
+/-! ## the event loop and a sending goroutine on one SQL store
+
+The engine's event loop updates the INBOUND counter outside the send lock while a sending goroutine saves a message and
+advances the OUTBOUND counter under it: the only pair of store operations that can overlap in a running session.  In the
+SQL store the two touch different columns of the session row and different fields of the cache, so the order in which
+they take effect does not matter — which is what the `sqlinter` operation of the store family demands of the real store at
+statement granularity (the outcome of the interleaving must be the sequential one). -/
+
+/-- the operations the event loop applies to the inbound side of its store (not under the send lock) -/
+def Qfx.Store.Op.targetSide : Op → Bool
+  | .setT _ | .incT => true
+  | _ => false
+/-- the operations a sending goroutine applies to the outbound side (under the send lock) -/
+def Qfx.Store.Op.senderSide : Op → Bool
+  | .setS _ | .incS | .save _ _ | .saveIncr _ _ => true
+  | _ => false
+
+theorem C16_sql_sides_commute (w : SqlW) (a b : Op) (ha : a.targetSide = true) (hb : b.senderSide = true) :
+    ((w.step a).1.step b).1 = ((w.step b).1.step a).1 := by
+  cases a <;> simp [Op.targetSide] at ha <;> cases b <;> simp [Op.senderSide] at hb
+  all_goals first
+    | (simp [SqlW.step, SqlW.stepF, fails, MemStore.setS, MemStore.setT, MemStore.nextS, MemStore.nextT, updIncoming_updOutgoing]; done)
+    | (rename_i n m
+       cases h : w.db.insertMsg n m <;>
+         simp [SqlW.step, SqlW.stepF, fails, MemStore.setS, MemStore.setT, MemStore.nextS, MemStore.nextT,
+               updIncoming_updOutgoing, insertMsg_updIncoming, h])
+
+/-- non-vacuity: on a store that holds a session row and a message the two orders give one (non-initial) state -/
+example : (((SqlW.open {} 0).step (.saveIncr 1 [65])).1.step .incT).1.db.sess.map (fun r => (r.incoming, r.outgoing)) = some (2, 2) := by decide
+
 /-!
 Clause checklist (properties.jsonl C16 → here)
 * "counters reflect the last set/increment": C16_memory_counters, C16_file_sender_durable, C16_sql_counters_durable (single steps);
